@@ -257,8 +257,12 @@ void World::s_read(StreamState& s, std::vector<asio::mutable_buffer> bufs, IoHan
 }
 
 void World::mark_delivered(const ConnPtr& c) {
-    for (auto& b : h.bpkts)
-        if (b.conn == c->id && b.delivered_t < 0 && b.end_offset <= c->b2c_read) { b.delivered_t = now(); b.delivered_seq = next_seq(); }
+    while (!c->undelivered_bpkts.empty()) {
+        BPacket& b = h.bpkts[c->undelivered_bpkts.front()];
+        if (b.end_offset > c->b2c_read) break;
+        b.delivered_t = now(); b.delivered_seq = next_seq();
+        c->undelivered_bpkts.pop_front();
+    }
 }
 
 void World::try_complete_read(const ConnPtr& c) {
@@ -304,6 +308,7 @@ void World::s_write(StreamState& s, std::string bytes, IoHandler hnd) {
             p.dec = ref::decode(std::string_view(bytes).substr(off), ref::Dir::from_client);
             size_t len = p.dec.status == ref::Status::ok ? p.dec.consumed : bytes.size() - off;
             p.raw = bytes.substr(off, len);
+            c->cpkt_at[p.offset] = p.id;
             w.pkts.push_back(p.id);
             h.cpkts.push_back(std::move(p));
             off += len;
